@@ -93,3 +93,103 @@ def strip(v):
     if isinstance(v, PyVec):
         return tuple(strip(x) for x in v.items)
     return v
+
+
+def display(m, v, alternate=False):
+    """evaluate <v as Display>::fmt -> (tokens, result)"""
+    from .builtins import fmt_value
+    f = PyFmt(alternate)
+    r = fmt_value(m, "display", v, f)
+    return f.out, r
+
+
+def from_tree_path(F, adt):
+    ps = [it["path"] for i in F.impls if (i["trait"] or "").endswith("FromTree")
+          and i["self_adt"] == adt for it in i["items"]]
+    if len(ps) != 1:
+        raise KeyError("FromTree impl for %s" % adt)
+    return ps[0]
+
+
+def parse_with(F, m, adt, s):
+    r = parse_tree(F, m, s)
+    if r.variant != "Ok":
+        return r
+    root = F.fn("root", file="expression/mod.rs")
+    ft = from_tree_path(F, adt)
+    ri = m.call_path(root, [r.fields["0"]])
+    return m.call_callee({"def": ft, "resolved": ft, "name": "from_tree"}, [ri])
+
+
+# ---- the bech32 crate's checksum engine (external): modelled by spec/bip380.Bech32Engine, parameterised by the
+# ---- constants of the library's `impl Checksum for DescriptorChecksum` as evaluated by rustc
+
+def checksum_params(F):
+    import sys, os
+    from . import constval
+    pre = [k for k in F.consts if k.endswith("as bech32::Checksum>::GENERATOR_SH")]
+    if len(pre) != 1:
+        raise KeyError("impl bech32::Checksum (GENERATOR_SH)")
+    base = pre[0][:-len("GENERATOR_SH")]
+    vals = {}
+    for nm in ("GENERATOR_SH", "CHECKSUM_LENGTH", "TARGET_RESIDUE", "CODE_LENGTH"):
+        v = constval.parse(F.consts[base + nm]["value"])
+        vals[nm] = list(v.items) if isinstance(v, PyVec) else v
+    return vals
+
+
+def install_bech32(F, m):
+    sys_path_spec()
+    import bip380
+    params = checksum_params(F)
+    m.bech32_engines = []
+
+    def new(m_, a, c):
+        e = bip380.Bech32Engine(params["GENERATOR_SH"], params["CHECKSUM_LENGTH"], params["TARGET_RESIDUE"])
+        m.bech32_engines.append(e)
+        return e
+
+    def input_fe(m_, a, c):
+        from .builtins import deref
+        deref(a[0]).input_fe(deref(a[1]))
+        return ()
+
+    def input_target(m_, a, c):
+        from .builtins import deref
+        deref(a[0]).input_target_residue()
+        return ()
+
+    def residue(m_, a, c):
+        from .builtins import deref
+        return deref(a[0]).residue
+
+    def unpack(m_, a, c):
+        from .builtins import deref
+        return bip380.Bech32Engine.unpack(deref(a[0]), deref(a[1]))
+
+    def fe_try_from(m_, a, c):
+        from .builtins import deref
+        from .interp import ok, err
+        v = deref(a[0])
+        return ok(v) if isinstance(v, int) and 0 <= v < 32 else err(Term("Fe32Error", v))
+
+    def to_char(m_, a, c):
+        from .builtins import deref
+        return bip380.CHECKSUM_CHARSET[deref(a[0])]
+    E = "bech32::primitives::checksum::Engine::<Ck>::"
+    m.hooks[E + "new"] = new
+    m.hooks[E + "input_fe"] = input_fe
+    m.hooks[E + "input_target_residue"] = input_target
+    m.hooks[E + "residue"] = residue
+    m.hooks["bech32::primitives::checksum::PackedFe32::unpack"] = unpack
+    m.hooks["bech32::Fe32::to_char"] = to_char
+    m.hooks["bech32::primitives::gf32::Fe32::to_char"] = to_char
+    m.fe_try_from = fe_try_from
+    return params
+
+
+def sys_path_spec():
+    import sys, os
+    p = os.path.join(os.path.dirname(os.path.dirname(os.path.abspath(__file__))), "spec")
+    if p not in sys.path:
+        sys.path.insert(0, p)
